@@ -496,6 +496,14 @@ func (a *algo) call(x *ast.CallExpr, env aenv) (string, aty) {
 	case "strings.HasSuffix":
 		ar := a.args(x, env, tStr, tStr)
 		return "(Go.hasSuffix " + ar[0] + " " + ar[1] + ")", tBool
+	case "strings.TrimSuffix":
+		ar := a.args(x, env, tStr, tStr)
+		return "(Go.trimSuffix " + ar[0] + " " + ar[1] + ")", tStr
+	case "make":
+		// make([]string, 0[, cap]) : an empty slice
+		if len(x.Args) >= 2 && goType(x.Args[0]) == tSliceStr && nodeStr(x.Args[1]) == "0" {
+			return "([] : List Str)", tSliceStr
+		}
 	case "strings.HasPrefix":
 		ar := a.args(x, env, tStr, tStr)
 		return "(Str.isPrefixOf " + ar[1] + " " + ar[0] + ")", tBool
@@ -989,7 +997,54 @@ func (a *algo) ret(e *ast.ReturnStmt, env aenv) string {
 
 // block translates a statement list; `tail` is what the list evaluates to when control reaches
 // its end ("" = that must not happen); noReturn forbids return statements (join blocks, loop bodies)
+// `switch { case c1: A; case c2, c3: B; default: D }` = if c1 {A} else if c2 || c3 {B} else {D}
+func switchToIf(x *ast.SwitchStmt) *ast.IfStmt {
+	if x.Init != nil || x.Tag != nil {
+		bail("switch with a tag or an initialiser")
+	}
+	var clauses []*ast.CaseClause
+	var def *ast.CaseClause
+	for _, s := range x.Body.List {
+		cc := s.(*ast.CaseClause)
+		ast.Inspect(cc, func(n ast.Node) bool {
+			if b, ok := n.(*ast.BranchStmt); ok && (b.Tok == token.FALLTHROUGH || b.Tok == token.BREAK) {
+				bail("%s inside a switch", b.Tok)
+			}
+			return true
+		})
+		if cc.List == nil {
+			def = cc
+		} else {
+			clauses = append(clauses, cc)
+		}
+	}
+	if len(clauses) == 0 {
+		bail("switch without cases")
+	}
+	var build func(i int) *ast.IfStmt
+	build = func(i int) *ast.IfStmt {
+		cc := clauses[i]
+		cond := cc.List[0]
+		for _, e := range cc.List[1:] {
+			cond = &ast.BinaryExpr{X: cond, Op: token.LOR, Y: e}
+		}
+		is := &ast.IfStmt{Cond: cond, Body: &ast.BlockStmt{List: cc.Body}}
+		if i+1 < len(clauses) {
+			is.Else = build(i + 1)
+		} else if def != nil {
+			is.Else = &ast.BlockStmt{List: def.Body}
+		}
+		return is
+	}
+	return build(0)
+}
+
 func (a *algo) block(list []ast.Stmt, env aenv, tail string, noReturn bool) string {
+	if len(list) > 0 {
+		if sw, ok := list[0].(*ast.SwitchStmt); ok {
+			list = append([]ast.Stmt{switchToIf(sw)}, list[1:]...)
+		}
+	}
 	if len(list) == 0 {
 		if tail == "" {
 			bail("control reaches the end of a non-void function")
